@@ -231,6 +231,75 @@ func init() {
 	}
 }
 
+func init() {
+	// bmut <t1|t2> <name> <hex>: an arbitrary (usually malformed) input fed to both variants: verdict and consumed length of
+	// each; when both accept: enc=same (all re-encodings equal) | norm (equal after the string variant re-reads what the bytes
+	// variant wrote: unsorted / repeated dictionary keys) | differ
+	ops["bmut"] = func(f []string) string {
+		old := debug.SetMaxStack(32 << 20)
+		defer debug.SetMaxStack(old)
+		it := meta.FactoryItemByTLName(f[2])
+		if it == nil {
+			return "driver-error no item " + f[2]
+		}
+		in := unhex(f[3])
+		tl2 := it.HasTL2()
+		read := func(o meta.Object) (string, bool) {
+			var rest []byte
+			var err error
+			if f[1] == "t1" {
+				rest, err = o.ReadTL1Boxed(in)
+			} else {
+				r, ok := o.(regTL2Reader)
+				if !ok {
+					return "noreader", false
+				}
+				rest, err = r.ReadTL2(in, &basictl.TL2ReadContext{})
+			}
+			if err != nil {
+				return cls(err), false
+			}
+			return fmt.Sprintf("ok:%d", len(in)-len(rest)), true
+		}
+		so, bo := factory.CreateObjectFromName(f[2]), regBytesObj(f[2])
+		sv, sok := read(so)
+		bv, bok := read(bo)
+		res := "s=" + sv + " b=" + bv
+		if !sok || !bok {
+			return res
+		}
+		sw, bw := regWriteAll(so, tl2), regWriteAll(bo, tl2)
+		if sw.t1err || bw.t1err {
+			return res + fmt.Sprintf(" enc=writeerr:%v/%v", sw.t1err, bw.t1err)
+		}
+		same := func(x, y regOut) bool { return !strings.Contains(regEq(x, y), "=0") }
+		if same(sw, bw) {
+			return res + " enc=same"
+		}
+		s2 := factory.CreateObjectFromName(f[2])
+		if _, err := s2.ReadTL1Boxed(bw.t1); err == nil && same(regWriteAll(s2, tl2), sw) {
+			return res + " enc=norm"
+		}
+		return res + " enc=differ:" + regEq(sw, bw)
+	}
+	// btl2 <name> <hex TL1 boxed>: the TL2 encoding the string variant writes for this content ("-" when TL2 is not generated)
+	ops["btl2"] = func(f []string) string {
+		o := factory.CreateObjectFromName(f[1])
+		if o == nil {
+			return "driver-error no object " + f[1]
+		}
+		if _, err := o.ReadTL1Boxed(unhex(f[2])); err != nil {
+			return cls(err)
+		}
+		w, ok := o.(regTL2Writer)
+		it := meta.FactoryItemByTLName(f[1])
+		if !ok || it == nil || !it.HasTL2() {
+			return "notl2"
+		}
+		return "ok " + hx(w.WriteTL2(nil, &basictl.TL2WriteContext{}))
+	}
+}
+
 type regReset interface{ Reset() }
 type regTL2Reader interface {
 	ReadTL2(r []byte, tctx *basictl.TL2ReadContext) ([]byte, error)
